@@ -208,6 +208,9 @@ def judge(W, run, trace):
             if is_err(out) or not out.get("same"):
                 v(i, "container:" + how.split(":")[0], "new_object", {"same": True}, out,
                   "public" if tbl == "public" else "private")
+            elif out.get("keys") != out.get("distinct") or out.get("set") != out.get("distinct"):
+                v(i, "container:keys", "distinct_atoms_collide_as_keys", {"keys": out.get("distinct")}, out,
+                  "public" if tbl == "public" else "private")
             continue
         if k == "iter":
             tbl, Z = ev[1], ev[2]
